@@ -32,7 +32,7 @@ ASSUMPTIONS = [
     "templates are identified by a tag in their text, not by Template.uri (which keeps the joined spelling)",
 ]
 MIN_NONTRIVIAL = 200
-REQUIRED_COUNTERS = ["sets_rendered", "relative_cross_directory_resolutions", "unresolvable_matched", "include_args_checked", "import_beats_context", "inline_def_precedence", "inheritable_via_self", "module_namespace_calls", "sibling_namespace_renders", "namespace_api_resolutions", "nameless_namespace_renders", "relative_inherit_chains"]
+REQUIRED_COUNTERS = ["sets_rendered", "relative_cross_directory_resolutions", "unresolvable_matched", "include_args_checked", "import_beats_context", "inline_def_precedence", "inheritable_via_self", "module_namespace_calls", "sibling_namespace_renders", "namespace_api_resolutions", "nameless_namespace_renders", "relative_inherit_chains", "module_namespace_inline_defs", "same_relative_uri_from_several_depths"]
 
 _st = {}
 
@@ -594,6 +594,56 @@ def run_directed(res):
             if root:
                 shutil.rmtree(root, ignore_errors=True)
             res.nontrivial("rel-inherit", levels, backing)
+
+    # (E) defs written inside a <%namespace module=...> tag take precedence over the module's callables of the same name
+    # (qualified and through import=), the module's other callables stay reachable
+    for style in ("qualified", "import-named"):
+        lk = L()
+        if style == "qualified":
+            lk.put_string("/m.html", '<%namespace name="m" module="verif_c07_mod"><%def name="mf(a=\'dflt\')">INLINE[${a}]</%def></%namespace>${m.mf("q")}|${m.mf2("r")}')
+        else:
+            lk.put_string("/m.html", '<%namespace module="verif_c07_mod" import="mf, mf2"><%def name="mf(a=\'dflt\')">INLINE[${a}]</%def></%namespace>${mf("q")}|${mf2("r")}')
+        sys.modules["verif_c07_mod"].mf2 = lambda context, a="noarg": (context.write("MODFN2[%s]" % a), "")[1]
+        got = render(lk, "/m.html", cv="CV")
+        res.evaluations += 1
+        res.count("module_namespace_inline_defs")
+        if got != "INLINE[q]|MODFN2[r]":
+            res.violate("module-namespace-inline-def", "<%%namespace module=...> with an inline def named like a module callable (%s): rendered %r, expected 'INLINE[q]|MODFN2[r]'" % (style, got))
+        res.nontrivial("mod-inline", style)
+
+    # (F) get_namespace with the SAME relative URI string from templates at different depths within one render: each
+    # call resolves against its own template (and a call that leaves the root is unresolvable whatever came before)
+    for first in ("deep-first", "top-first"):
+        _st["n"] += 1
+        root = os.path.join(_st["tmp"], "f%d" % _st["n"])
+        texts = {
+            "/x.html": '<%def name="tag()">XROOT</%def>',
+            "/d1/x.html": '<%def name="tag()">XD1</%def>',
+            "/d1/d2/x.html": '<%def name="tag()">XDEEP</%def>',
+            "/d1/d2/deep.html": "deep[${local.get_namespace('x.html').tag()}|${local.get_namespace('../x.html').tag()}]",
+            "/d1/mid.html": "mid[${local.get_namespace('x.html').tag()}|${local.get_namespace('../x.html').tag()}]",
+            "/top.html": "top[${local.get_namespace('x.html').tag()}]",
+            "/main.html": ('<%include file="/d1/d2/deep.html"/><%include file="/d1/mid.html"/><%include file="/top.html"/>' if first == "deep-first"
+                           else '<%include file="/top.html"/><%include file="/d1/mid.html"/><%include file="/d1/d2/deep.html"/>'),
+            "/esc.html": "<%include file=\"/d1/mid.html\"/>esc[${local.get_namespace('../x.html').tag()}]",
+        }
+        for u, t in texts.items():
+            fp = os.path.join(root, u.lstrip("/"))
+            os.makedirs(os.path.dirname(fp), exist_ok=True)
+            with open(fp, "w") as fh:
+                fh.write(t)
+        lk = L(directories=[root])
+        want = "deep[XDEEP|XD1]mid[XD1|XROOT]top[XROOT]" if first == "deep-first" else "top[XROOT]mid[XD1|XROOT]deep[XDEEP|XD1]"
+        got = render(lk, "/main.html")
+        res.evaluations += 1
+        res.count("same_relative_uri_from_several_depths")
+        if got != want:
+            res.violate("get-namespace-base-uri", "one render, get_namespace('x.html') / ('../x.html') called from three depths (%s): %r, expected %r" % (first, got, want))
+        got = render(lk, "/esc.html")
+        if got != "TemplateLookupException":
+            res.violate("get-namespace-base-uri", "/esc.html: get_namespace('../x.html') from the root template after /d1/mid.html used the same string: %r, expected a TemplateLookupException" % got)
+        shutil.rmtree(root, ignore_errors=True)
+        res.nontrivial("same-rel-uri", first)
 
     # (B) the Namespace API of a FILE namespace declared in a deeper template: get_namespace / get_template /
     # include_file with a relative URI resolve against the namespace's own template (documented on
